@@ -41,7 +41,8 @@ class SMMapSetMeta:
         self: "SMMapSet", lines: List[str]
     ) -> Tuple[List[BpmChangeSnap], SMStopList]:
         """Reads the metadata strings"""
-        bcs_s, stops = None, None
+        # A file may carry no #STOPS tag at all
+        bcs_s, stops = None, SMStopList([])
         for line in lines:
             if line == "":
                 continue
